@@ -330,18 +330,19 @@ Print Assumptions float64_detour_invisible_up_to_2_53.
 (* The judgement of the check and the model.  [Check.prop_ok] judges histories observed on the
    implementation against a reference database of its own.  On EVERY observed history [w] (any mix
    of the two instances) on which the implementation agrees with the model ([agrees1]: results,
-   query counts, keys seen by the callbacks, store contents after every operation), clause (A)
-   of the judgement - coherence, with the exemption of the known finding F7 (a read of a key whose
-   failed invalidation is outstanding in the model) - holds at every Take / QueryRow / Get: it is a
-   consequence of the coherence invariant, not an oracle of its own, and can only fail where the
-   implementation leaves the model or F7 shows.  (Partial: the QueryRowIndex reads of clause (A)
-   and clauses (B)-(H) are not tied to the model by a theorem.) *)
-Theorem agreed_primary_reads_are_coherent_partial : forall w : wcase,
-  NoDup (map fst (c_rows w)) -> agrees1 w = true ->
-  coherent_primary_from (c_cfg w) (c_cfg2 w) (c_inst w)
-                        (mkR (c_rows w) false [] [] true [] (init (c_rows w))) (c_ops w) (c_obs w) = true.
-Proof. exact agreed_reads_coherent_lemma. Qed.
-Print Assumptions agreed_primary_reads_are_coherent_partial.
+   query counts, keys seen by the callbacks, store contents after every operation) and whose
+   observed dumps list every key once (a Redis keyspace does), clause (A) of the judgement -
+   coherence, with the exemption of the known finding F7: a read of a key whose failed
+   invalidation is outstanding in the model (for QueryRowIndex also the primary key named by the
+   index entry OBSERVED before the read) - holds at every operation: it is a consequence of the
+   coherence invariant, not an oracle of its own, and can only fail where the implementation
+   leaves the model or F7 shows.  (Clauses (B)-(H) are not tied to the model by a theorem.) *)
+Theorem agreed_reads_are_coherent : forall w : wcase,
+  NoDup (map fst (c_rows w)) -> dumps_unique (c_obs w) -> agrees1 w = true ->
+  coherent_from (c_cfg w) (c_cfg2 w) (c_inst w)
+                (mkR (c_rows w) false [] [] true [] (init (c_rows w))) (c_ops w) (c_obs w) = true.
+Proof. exact agreed_coherent_lemma. Qed.
+Print Assumptions agreed_reads_are_coherent.
 
 (* ------------------------------------------------------------------ non-vacuity *)
 Definition ex_cfg : config := mkCfg (100 * sec) (10 * sec) [(KP 1, 1)] false.
@@ -441,3 +442,21 @@ Example ex_dying_context :
   cache s' = [] /\ pending s' = [] /\ db_get 1 (db s') = Some (7, 42) /\
   snd (step ex_cfg_cl s' (OQri 7 100)) = mkObs (RRow 1 7 42) 1 0.
 Proof. vm_compute. repeat split; eexists; reflexivity. Qed.
+
+(* an observed history (what the executor reports for [take 1; qri 7; exec; take 1] on one node)
+   that meets the hypotheses of [agreed_reads_are_coherent] *)
+Definition ex_observed : wcase :=
+  mkCaseW ex_cfg ex_cfg [] false ex_rows
+    [OTake 1 100; OQri 7 100; OExec 1 (Some (7, 42)) [KP 1; KU 7]; OTake 1 100]
+    [mkWO (RRow 1 7 41) 0 1 [] (DFull [(KP 1, CRow 7 41, 100000)]);
+     mkWO (RRow 1 7 41) 1 0 [VInt64 1] (DDelta 0 [] [(KU 7, CPk 1, 100000); (KP 1, CRow 7 41, 105000)]);
+     mkWO ROk 0 0 [] (DDelta 0 [KP 1; KU 7] []);
+     mkWO (RRow 1 7 42) 0 1 [] (DFull [(KP 1, CRow 7 42, 100000)])].
+Example ex_observed_ok :
+  agrees1 ex_observed = true /\ prop_ok [ex_observed] = true /\
+  NoDup (map fst (c_rows ex_observed)) /\ dumps_unique (c_obs ex_observed).
+Proof.
+  split; [vm_compute; reflexivity|]. split; [vm_compute; reflexivity|].
+  split; [repeat constructor; cbn; intuition discriminate|].
+  repeat constructor; cbn; intuition discriminate.
+Qed.
